@@ -1712,6 +1712,149 @@ run_s18(void *arg)
 	vh_fini();
 }
 
+// ---- S19: several receives on one SUB socket completed by one arrival (a batch of completions) ---------------
+// the socket's own receive and three contexts' receives are pending; one published message completes all four
+// in one batch.  Each callback re-submits its receive (variant) so that the batch is walked while its members
+// are already in use again; a second message completes the second round.  A canceller aims at one of them.
+static struct {
+	nng_aio   *aio;
+	nng_ctx    ctx;
+	int        isock, ncb, nsub, nok, resub;
+	nng_socket s;
+} S19[4];
+static void
+s19_submit(int i)
+{
+	S19[i].nsub++;
+	if (S19[i].isock)
+		nng_socket_recv(S19[i].s, S19[i].aio);
+	else
+		nng_ctx_recv(S19[i].ctx, S19[i].aio);
+}
+static void
+s19_cb(void *arg)
+{
+	int i = (int) (intptr_t) arg;
+	S19[i].ncb++;
+	if (S19[i].ncb > S19[i].nsub)
+		vs_fail("C02:double-callback", "receive %d: callback #%d for %d submissions", i, S19[i].ncb,
+		    S19[i].nsub);
+	int rv = nng_aio_result(S19[i].aio);
+	if (rv == 0) {
+		nng_msg *m = nng_aio_get_msg(S19[i].aio);
+		if (m == NULL || nng_msg_len(m) != 2 || ((char *) nng_msg_body(m))[0] != 'm')
+			vs_fail("C02:result-without-effect", "receive %d succeeded without the message", i);
+		if (((char *) nng_msg_body(m))[1] != '0' + S19[i].nok)
+			vs_fail("C02:message-conservation", "receive %d got message %c, expected %d", i,
+			    ((char *) nng_msg_body(m))[1], S19[i].nok);
+		S19[i].nok++;
+		nng_msg_free(m);
+		if (S19[i].resub > 0) {
+			S19[i].resub--;
+			s19_submit(i);
+		}
+	}
+}
+static void *
+s19_canceller(void *a)
+{
+	nng_aio_cancel(S19[(intptr_t) a].aio);
+	return NULL;
+}
+static void
+run_s19(void *arg)
+{
+	(void) arg;
+	int resub  = vs_choose(VK_ENV, 2);
+	int victim = vs_choose(VK_ENV, 5); // 4 = nobody is cancelled
+	vh_init(0);
+	nng_socket pub, sub;
+	VH_OK(nng_pub0_open(&pub));
+	VH_OK(nng_sub0_open(&sub));
+	VH_OK(nng_sub0_socket_subscribe(sub, "", 0));
+	VH_OK(nng_listen(pub, "inproc://s19", NULL, 0));
+	VH_OK(nng_dial(sub, "inproc://s19", NULL, 0));
+	memset(S19, 0, sizeof(S19));
+	for (int i = 0; i < 4; i++) {
+		S19[i].isock = i == 0;
+		S19[i].s     = sub;
+		S19[i].resub = resub;
+		if (i) {
+			VH_OK(nng_ctx_open(&S19[i].ctx, sub));
+			VH_OK(nng_sub0_ctx_subscribe(S19[i].ctx, "", 0));
+		}
+		VH_OK(nng_aio_alloc(&S19[i].aio, s19_cb, (void *) (intptr_t) i));
+		nng_aio_set_timeout(S19[i].aio, 200);
+	}
+	vs_settle();
+	for (int i = 0; i < 4; i++)
+		s19_submit(i);
+	vs_settle();
+	pthread_t th;
+	vs_window(1);
+	if (victim < 4)
+		pthread_create(&th, NULL, s19_canceller, (void *) (intptr_t) victim);
+	if (vh_send_nb(pub, "m0", 2) != 0)
+		vs_fail("harness:s19", "publish refused");
+	if (victim < 4)
+		pthread_join(th, NULL);
+	vs_window(0);
+	vs_settle();
+	if (vh_send_nb(pub, "m1", 2) != 0)
+		vs_fail("harness:s19", "publish refused");
+	vs_settle();
+	vs_sleep(300); // whatever is still pending times out
+	vs_settle();
+	char out[64] = "";
+	for (int i = 0; i < 4; i++)
+		vs_log("resub=%d victim=%d receive %d: sub %d cb %d ok %d last %d", resub, victim, i, S19[i].nsub,
+		    S19[i].ncb, S19[i].nok, nng_aio_result(S19[i].aio));
+	for (int i = 0; i < 4; i++) {
+		if (S19[i].ncb != S19[i].nsub || nng_aio_busy(S19[i].aio))
+			vs_fail("C02:callback-count",
+			    "receive %d (%s): %d submissions, %d callbacks after both messages and the timeout "
+			    "(resubmitting callbacks: %d, cancelled: %d)",
+			    i, i ? "context" : "socket", S19[i].nsub, S19[i].ncb, resub, victim);
+		// conservation: what the callbacks did not take (a receive that was cancelled, timed out first, or
+		// was not re-submitted) is still there, in order - every receiver sees m0 then m1, each once
+		int got = S19[i].nok;
+		{
+			nng_aio *da;
+			VH_OK(nng_aio_alloc(&da, NULL, NULL));
+			for (;;) {
+				nng_aio_set_timeout(da, NNG_DURATION_ZERO);
+				if (i)
+					nng_ctx_recv(S19[i].ctx, da);
+				else
+					nng_socket_recv(sub, da);
+				nng_aio_wait(da);
+				if (nng_aio_result(da) != 0)
+					break;
+				nng_msg *m = nng_aio_get_msg(da);
+				if (nng_msg_len(m) != 2 || ((char *) nng_msg_body(m))[1] != '0' + got)
+					vs_fail("C02:message-conservation",
+					    "receive %d (%s): after %d message(s) taken by callbacks the next queued one is "
+					    "'%.2s'", i, i ? "context" : "socket", got, (char *) nng_msg_body(m));
+				got++;
+				nng_msg_free(m);
+			}
+			nng_aio_free(da);
+		}
+		if (got != 2)
+			vs_fail("C02:message-conservation",
+			    "receive %d (%s): callbacks took %d message(s), %d more were queued: 2 were published "
+			    "(resubmitting callbacks: %d, cancelled: %d)",
+			    i, i ? "context" : "socket", S19[i].nok, got - S19[i].nok, resub, victim);
+		snprintf(out + strlen(out), sizeof(out) - strlen(out), "%d/%d ", S19[i].nok, S19[i].ncb);
+	}
+	vs_outcome("resub%d victim%d %s", resub, victim, out);
+	for (int i = 0; i < 4; i++)
+		nng_aio_free(S19[i].aio);
+	nng_socket_close(sub);
+	nng_socket_close(pub);
+	vh_fini();
+}
+
 #include "sendrace.h"
 
 static void
@@ -1805,6 +1948,7 @@ main(int argc, char **argv)
 	explore("S8-stream-close-cancel", run_s8, (void *) 1, p, t, sw, tot);
 	explore("S8-stream-idle-cancel", run_s8, (void *) 2, p, t, sw, tot);
 	explore("S17-http-transact-cancel", run_s17, NULL, 1, 1, 1, T ? 2 : 1);
+	explore("S19-batch-completion-sub", run_s19, NULL, 1, 1, 1, T ? 2 : 1);
 	explore("S18-reuse-immediate", run_s18, (void *) (intptr_t) (T ? 3 : 2), 1, 1, 1, 1);
 	explore("S18-reuse-immediate-cancel-everywhere", run_s18, (void *) (intptr_t) (0x100 | 2), 1, 1, 1,
 	    T ? 2 : 1);
